@@ -54,16 +54,7 @@ type kit[T any] struct {
 	genRule func(res string) *T
 }
 
-// genAct is what the harness-registered generators do when the build calls them (one shot): nothing,
-// panic (a failing load), or send requests (a request decided while a reload is in progress).
-var genAct func()
 
-func runGenAct() {
-	if f := genAct; f != nil {
-		genAct = nil
-		f()
-	}
-}
 
 type metaScen[T any] struct {
 	Kind     string
@@ -257,10 +248,7 @@ func runMeta[T any](x *runner, kt *kit[T], id int, corr bool) {
 	}
 	inGen := 0
 	obsB := rulesh.RunHooked2(m, scB.Case, false, func(k int) {
-		genAct = nil
-		switch scB.Case.Ops[k].Gen {
-		case "fail":
-			genAct = func() { panic("generator failure injected by the harness") }
+		switch scB.Case.Ops[k].Gen { // "fail" is set up by rulesh.RunHooked2
 		case "traffic":
 			s2 := scB.InGenOf[k]
 			seg := scB.Segs[s2]
@@ -274,7 +262,7 @@ func runMeta[T any](x *runner, kt *kit[T], id int, corr bool) {
 			if j > len(seg) {
 				j = len(seg)
 			}
-			genAct = func() {
+			rulesh.GenAct = func() {
 				for i := 0; i < j; i++ {
 					send(seg[i])
 				}
@@ -283,7 +271,6 @@ func runMeta[T any](x *runner, kt *kit[T], id int, corr bool) {
 			}
 		}
 	}, func(k int) {
-		genAct = nil
 		if s2 := scB.SegIdx[k]; s2 >= 0 {
 			for _, e := range scB.Segs[s2][consumed[s2]:] {
 				send(e)
